@@ -1252,12 +1252,56 @@ func TestVerifC06Replay(t *testing.T) {
 	for i := range seeds {
 		seeds[i] = root.Uint64()
 	}
+	c06DirectedFreeRunning(rep)
 	kit.Parallel(nh, kit.Workers(), func(i int) {
 		if rep.NumViolations() >= 60 {
 			return
 		}
 		c06RunHistory(rep, i, seeds[i])
 	})
+}
+
+// c06DirectedFreeRunning applies a few fixed histories back to back (no waiting
+// for the asynchronous notifications) in which the notification of a delete has
+// to rebalance ANOTHER stream of the group while the next operations change
+// that stream (pause/resume replaces the partition object in the stream's
+// map).  The only monitor here is the race detector.
+func c06DirectedFreeRunning(rep *kit.Report) {
+	mk := func(name string, nparts int, idx uint64) *c06Op {
+		ps := &proto.Stream{Name: name, Subject: "d." + name, CreationTimestamp: 1}
+		for p := 0; p < nparts; p++ {
+			ps.Partitions = append(ps.Partitions, &proto.Partition{Subject: "d." + name, Stream: name, Id: int32(p), ReplicationFactor: 2,
+				Replicas: []string{"b1", "b2"}, Isr: []string{"b1", "b2"}, Leader: "b1"})
+		}
+		return c06MkOp("create", idx, "create("+name+")", &proto.RaftLog{Op: proto.Op_CREATE_STREAM, CreateStreamOp: &proto.CreateStreamOp{Stream: ps}})
+	}
+	for round := 0; round < 4; round++ {
+		dir := c06TempDir("dir")
+		s := c06NewServer(dir)
+		ops := []*c06Op{
+			mk("s1", 2, 2), mk("s2", 2, 3),
+			c06MkOp("gcreate", 4, "gcreate", &proto.RaftLog{Op: proto.Op_CREATE_CONSUMER_GROUP, CreateConsumerGroupOp: &proto.CreateConsumerGroupOp{
+				ConsumerGroup: &proto.ConsumerGroup{Id: "g1", Coordinator: "b1", Members: []*proto.Consumer{{Id: "c1", Streams: []string{"s1", "s2"}}}}}}),
+			c06MkOp("join", 5, "join", &proto.RaftLog{Op: proto.Op_JOIN_CONSUMER_GROUP, JoinConsumerGroupOp: &proto.JoinConsumerGroupOp{GroupId: "g1", ConsumerId: "c2", Streams: []string{"s1", "s2"}}}),
+			c06MkOp("pause", 6, "pause", &proto.RaftLog{Op: proto.Op_PAUSE_STREAM, PauseStreamOp: &proto.PauseStreamOp{Stream: "s2", Partitions: []int32{0, 1}}}),
+			c06MkOp("delete", 7, "delete", &proto.RaftLog{Op: proto.Op_DELETE_STREAM, DeleteStreamOp: &proto.DeleteStreamOp{Stream: "s1"}}),
+			c06MkOp("resume", 8, "resume", &proto.RaftLog{Op: proto.Op_RESUME_STREAM, ResumeStreamOp: &proto.ResumeStreamOp{Stream: "s2", Partitions: []int32{0, 1}}}),
+			c06MkOp("delete", 9, "delete", &proto.RaftLog{Op: proto.Op_DELETE_STREAM, DeleteStreamOp: &proto.DeleteStreamOp{Stream: "s2"}}),
+		}
+		for _, op := range ops {
+			if err := c06Apply(s, op, false); err != nil {
+				rep.Violation("C06:apply-error:"+op.Kind, fmt.Sprintf("directed history: %s rejected: %v", op.Desc, err), nil)
+				break
+			}
+			if round%2 == 1 && op.Kind == "delete" {
+				time.Sleep(200 * time.Microsecond) // schedule shaping only
+			}
+		}
+		c06Quiesce(s)
+		c06Close(s)
+		c06RemoveLater(dir)
+		rep.Count("directed_free_running_histories", 1)
+	}
 }
 
 func c06RunHistory(rep *kit.Report, id int, seed uint64) {
@@ -1354,6 +1398,34 @@ func c06RunHistory(rep *kit.Report, id int, seed uint64) {
 				fmt.Sprintf("a server on which removeStream's asynchronous group notification ran one operation late ends in a different state: %s", d.Detail),
 				map[string]interface{}{"prompt": digests[n].String(), "late": c06DigestOf(C).String()})
 		}
+	}
+
+	// free-running server: the operations are applied back to back without waiting for the
+	// asynchronous notifications, as raft's FSM loop does; under -race this exposes unordered
+	// accesses between removeStream's goroutine and the following applies.
+	{
+		dirD := c06TempDir("d")
+		D := c06NewServer(dirD)
+		okD := true
+		for _, op := range h.ops {
+			if err := c06Apply(D, op, false); err != nil {
+				// possible only as a consequence of a notification overtaken by later operations
+				rep.Count("free_running_apply_errors", 1)
+				okD = false
+				break
+			}
+		}
+		c06Quiesce(D)
+		rep.Count("free_running_histories", 1)
+		if okD {
+			for _, d := range c06Compare(digests[n], c06DigestOf(D)) {
+				h.violation("C06:determinism:free-running:"+d.Class,
+					fmt.Sprintf("a server applying the history back to back (asynchronous group notifications not awaited, as in raft's FSM loop) ends in a different state: %s", d.Detail),
+					map[string]interface{}{"prompt": digests[n].String(), "free_running": c06DigestOf(D).String()})
+			}
+		}
+		c06Close(D)
+		c06RemoveLater(dirD)
 	}
 
 	// freeze the data directory as it is at the restart point (end of the history)
